@@ -80,6 +80,43 @@ fn main() {
         THREADS_ONLY.store(true, std::sync::atomic::Ordering::Relaxed);
     }
     let cmd = args[1].as_str();
+    if cmd == "selftest" {
+        // deliberate defects that the sanitizer builds must report (proves the instrumentation is live)
+        match args[2].as_str() {
+            "oob" => {
+                let v = vec![1u8; 16];
+                let p = v.as_ptr();
+                let x = unsafe { std::ptr::read_volatile(p.add(16 + (args.len() & 1))) };
+                println!("read {}", x);
+            }
+            "leak" => {
+                let v = vec![7u8; 4096];
+                std::mem::forget(v);
+                println!("leaked");
+            }
+            "race" => {
+                static mut COUNTER: u64 = 0;
+                let hs: Vec<_> = (0..4)
+                    .map(|_| {
+                        std::thread::spawn(|| {
+                            for _ in 0..10_000 {
+                                unsafe {
+                                    let p = std::ptr::addr_of_mut!(COUNTER);
+                                    p.write_volatile(p.read_volatile() + 1);
+                                }
+                            }
+                        })
+                    })
+                    .collect();
+                for h in hs {
+                    let _ = h.join();
+                }
+                println!("raced");
+            }
+            _ => {}
+        }
+        return;
+    }
     let prop = args[2].as_str();
     let mut mon = match monitors::get(prop) {
         Some(m) => m,
